@@ -72,9 +72,20 @@ def gen(seed, tier):
         dscript.append(["adopt", "trig"])
     else:
         dscript.append([trig])
+    drivers = [{"id": "d0", "script": dscript}]
+    if rng.random() < 0.35:
+        # adoptions racing with the termination itself: a second thread keeps handing coroutine payloads to the
+        # runtime from the moment the trigger fires until well after the run call has ended
+        marker = {"sigint": "sigint-sent", "stop": "stop-call", "shutdown": "shutdown-call"}.get(trig, "start:trig")
+        lscript = [["wait-marker", marker]]
+        for i in range(rng.randint(2, 6)):
+            pid = "late%d" % i
+            payloads.append({"id": pid, "flavour": rng.choice(["asyncio", "asyncio", "trio"]), "via": "adopt", "steps": [["hb", 0.05, None]], "cleanup_sync": rng.choice([0, 1, 2]), "late": True})
+            lscript += [["sleep", rng.choice([0.0, 0.0, 0.001, 0.01, 0.05, 0.1, 0.2])], ["adopt", pid]]
+        drivers.append({"id": "dl", "script": lscript})
     knobs["horizon"] = 6.0 + knobs["accept_delay"] + 5.0 + sum(p.get("cleanup_async", 0) for p in payloads) + 3.0
     rng.shuffle(payloads)
-    return {"prop": "C02", "seed": seed, "knobs": knobs, "payloads": payloads, "drivers": [{"id": "d0", "script": dscript}], "trigger": trig, "grace": rng.choice([0.5, 2.5])}
+    return {"prop": "C02", "seed": seed, "knobs": knobs, "payloads": payloads, "drivers": drivers, "trigger": trig, "grace": rng.choice([0.5, 2.5])}
 
 
 def main(h):
